@@ -7,4 +7,6 @@ import Comet.F32
 import Comet.Distance
 import Comet.DistanceF32
 import Comet.Hybrid
+import Comet.BM25
+import Comet.BM25F
 import Comet.Driver.Loop
